@@ -1,5 +1,6 @@
 """C10 - Negotiated send rate never exceeds either side's declared limit (DESIGN.md section 4, C10)."""
 import json
+import math
 
 from vlib import common
 
@@ -21,11 +22,18 @@ RULE = ("grid {0, 65536, 65537, 10^6, 2^62, 2^63-1, 2^63, 2^64-1} for client rx 
         "random), earlier clients closed or kept open, the caller sometimes writing new limits into the object between two handshakes; per "
         "handshake HandshakeInfo.Tx, the installed controller, the declared receive rate and the object's bandwidth fields after NewClient "
         "returned are observed (each handshake must be the one a fresh Config with the caller's limits would make; the object is not modified); "
+        "WIRE (C10 o C11): complete handshakes over rates 65536 B/s .. 5e9 B/s with each limit binding in turn and loss compensation on/off; "
+        "the installed sender's rate and disableLossCompensation flag are read by reflection, a sender constructed by NewBrutalSender with "
+        "exactly those values is driven by a simulated QUIC send loop on a virtual clock (C11's loop: pacing waits, ack/loss batches around the "
+        "0.8 clamp, idle gaps, timer slack, initial-burst drain) and every query result is compared, through C11's digest, with C11's model of "
+        "the sender that C10's model installs; verdict = over every window of sends, bytes <= burst + reported rate/0.8 x interval, and a sleep "
+        "until the announced time yields pacing budget; "
         "in-package header codec on arbitrary byte strings and multiple values; Config.fill() around the 65536 floor; "
         "brutal.NewBrutalSender around 2^63. Non-trivial = a handshake-level case (real network handshake) or a codec case whose "
         "header is not a plain in-range numeral. Distinct = distinct JSON case.")
 ASSUMPTIONS = [
-    "enforced rate = the rate the installed controller was constructed with (BrutalSender.bps); that Brutal then paces at that rate is C11",
+    "enforced rate = the rate the installed controller was constructed with (BrutalSender.bps); that this sender then releases at most a burst plus reported rate/0.8 x interval on the wire and is never stalled is proved by composing with C11 (C10_wire_*), under C11's remaining hypotheses: rate < 2^50 B/s and 4 ms x rate/0.8 < 2^63, datagram sizes <= 2^32, monotime send times that do not go backwards, rate/0.8 x gap < 2^63, a paced packet is sent only when the pacer's budget covers it, fewer than 2^64 packets reported",
+    "wire cases drive a sender constructed by NewBrutalSender with the rate and flag read from the installed object (the installed object itself is in use by quic-go)",
     "HTTP/3 transports the Hysteria-CC-RX value unchanged (quic-go http3/qpack; raw-header handshakes only use visible ASCII without spaces)",
     "server-side connections are accepted by a 3-line copy of serverImpl.Serve (to keep the *quic.Conn); handleClient/ServeHTTP are the real code",
 ]
@@ -181,7 +189,53 @@ def gen(rng, tier):
     import random
     rng2 = random.Random(rng.getrandbits(64))
     cases += gen_seq(rng2, thorough)
+    # --- C10 o C11: handshakes whose installed sender is then driven on the wire (appended last, own generator)
+    rng3 = random.Random(rng.getrandbits(64))
+    cases += gen_wire(rng3, thorough)
     return cases
+
+
+WIRE_RATES = [65536, 65537, 100000, 10 ** 6, 3200000, 12500000, 125 * 10 ** 6, 1250 * 10 ** 6, 5 * 10 ** 9]
+WIRE_MDS = [1200, 1252, 1280, 1452, 1500]
+
+
+def wire_loop(rng, high):
+    return {"seed": rng.randrange(2 ** 31), "n": rng.choice([40, 60, 90]), "mds": rng.choice(WIRE_MDS),
+            "rtt": rng.choice([0, 10 ** 6, 20 * 10 ** 6, 300 * 10 ** 6]),
+            "t0": rng.choice([1, 5 * 10 ** 8, 3600 * 10 ** 9, rng.randrange(1, 10 ** 13)]),
+            "lossp": rng.choice([0, 0.01, 0.1, 0.19, 0.2, 0.21, 0.3, 0.5, 0.9]), "evp": rng.choice([0.1, 0.2, 0.3]),
+            "idlep": rng.choice([0, 0.03, 0.08]), "maxgap": rng.choice([5 * 10 ** 6, 10 ** 9, 7 * 10 ** 9]),
+            "slack": rng.choice([0, 0, 10 ** 5, 5 * 10 ** 6]), "small": rng.random() < 0.3, "drain": high and rng.random() < 0.7}
+
+
+def wire_case(rng, crx, ctx, stx, srx, ignore=False):
+    rates = [x for x in (crx, ctx, stx, srx) if x]
+    return {"k": "wire", "crx": crx, "ctx": ctx, "stx": stx, "srx": srx, "ignore": ignore, "stype": rng.choice(TYPES),
+            "ctype": rng.choice(TYPES), "sdis": rng.random() < 0.3, "cdis": rng.random() < 0.3,
+            "loop": wire_loop(rng, bool(rates) and min(rates) > 3200000)}
+
+
+def gen_wire(rng, thorough):
+    """each side's fixed rate = min(own limit, peer's declared limit) over the range of rates C11 is stated for; the limit that
+    binds is the own one / the peer's / the only one; one side without a fixed rate; loss compensation on and off"""
+    out = []
+    pick = lambda: rng.choice(WIRE_RATES) if rng.random() < 0.6 else int(math.exp(rng.uniform(math.log(65536), math.log(5e9))))
+    # server limited by the client's declaration (server unlimited), client by its own limit (server declares 0 = unlimited)
+    out.append(wire_case(rng, pick(), pick(), 0, 0))
+    # both limits on both sides: min binds
+    for _ in range(3 if not thorough else 30):
+        out.append(wire_case(rng, pick(), pick(), pick(), pick()))
+    # lowest and highest rates
+    out.append(wire_case(rng, 65536, 65536, 65536, 65536))
+    out.append(wire_case(rng, 5 * 10 ** 9, 5 * 10 ** 9, 0, 5 * 10 ** 9))
+    # one side falls back to the configured controller: client declares 0 / has no own limit / server ignores
+    out.append(wire_case(rng, 0, pick(), pick(), pick()))
+    out.append(wire_case(rng, pick(), 0, pick(), pick()))
+    out.append(wire_case(rng, pick(), pick(), pick(), pick(), ignore=True))
+    for _ in range(3 if not thorough else 40):
+        out.append(wire_case(rng, rng.choice([0, pick(), pick()]), rng.choice([0, pick(), pick()]), rng.choice([0, pick()]),
+                             rng.choice([0, pick()]), ignore=rng.random() < 0.1))
+    return out
 
 
 SEQ_ANS = ["auto", "0", None, "", "100000", "65536", "1", "999999999", "18446744073709551615", "9223372036854775807",
@@ -294,6 +348,13 @@ def to_coq(c, o):
         if si is None or ci is None:
             return None
         return "CHs %s %s %s %s %s %s %s" % (srv(c), cli(c), num(o["auth_tx"]), num(o["connect_tx"]), si, num(o["info_tx"]), ci)
+    if k == "wire":
+        si, ci = inst(o["s_kind"], o["s_bps"]), inst(o["c_kind"], o["c_bps"])
+        if si is None or ci is None:
+            return None
+        return "CWire %s %s %s %s %s %s %s %s %s %s %s %s %s" % (
+            srv(c), cli(c), b(c["sdis"]), b(c["cdis"]), num(o["auth_tx"]), num(o["connect_tx"]), si, num(o["info_tx"]), ci,
+            b(o.get("s_dis")), b(o.get("c_dis")), wire_runs(o, "s"), wire_runs(o, "c"))
     if k == "rawreq":
         si = inst(o.get("s_kind"), o.get("s_bps"))
         if si is None:
@@ -340,6 +401,29 @@ def to_coq(c, o):
     return None
 
 
+def wz(v):
+    return str(v) if v >= 0 else "(%d)" % v
+
+
+def wire_step(st):
+    op = st["op"]
+    if op == "sent":
+        return "wSn %s %s" % (wz(st["t"]), wz(st["size"]))
+    if op == "ev":
+        return "wEv %s %d %d" % (wz(st["t"]), st["a"], st["l"])
+    if op == "mds":
+        return "wMd %s" % wz(st["s"])
+    if op == "rtt":
+        return "wRt %s" % wz(st["rtt"])
+    return "wWt %s" % wz(st["now"])
+
+
+def wire_runs(o, who):
+    if who + "_steps" not in o:
+        return "[]"
+    return "[([%s], %d%%Z, %d%%Z)]" % (";".join(wire_step(st) for st in o[who + "_steps"]), o[who + "_nobs"], o[who + "_dig"])
+
+
 def hclass(raw):
     if raw is None:
         return "missing"
@@ -373,6 +457,9 @@ def klass(c, o):
         return k + ":error"
     if k == "hs":
         return "hs:%ss=%s,c=%s" % ("ignore," if c["ignore"] else "", side(o["s_kind"], o["s_bps"]), side(o["c_kind"], o["c_bps"]))
+    if k == "wire":
+        return "wire:s=%s%s,c=%s%s" % (side(o["s_kind"], o["s_bps"]), "(no-comp)" if o.get("s_dis") else "",
+                                       side(o["c_kind"], o["c_bps"]), "(no-comp)" if o.get("c_dis") else "")
     if k == "rawreq":
         return "rawreq:%s:%s" % (hclass(None if c["hdr"] is None else c["hdr"].encode()), side(o["s_kind"], o["s_bps"]))
     if k == "reauth":
@@ -395,6 +482,8 @@ def klass(c, o):
 
 def nontrivial(c, o):
     k = c["k"]
+    if k == "wire":
+        return "err" not in o and o.get("windows", 0) > 0
     if k in ("hs", "rawreq", "rawresp", "reauth", "seq"):
         return "err" not in o
     if k in ("preq", "presp"):
@@ -454,6 +543,17 @@ def run(ctx):
             out.append(v)
         cov = dict(cov)
         cov["violation_classes"] = counts
+        # common.run_case_check does not report a model/implementation disagreement when some case violates the property
+        # directly - and in this property the open known finding always does.  A disagreement on cases that are not
+        # themselves failing inputs must still be reported: the correspondence is broken, no failing input is known.
+        nd = cov.get("model_impl_disagreements", 0)
+        if nd and not any(not v.get("found_input") for v in out) and all(v.get("fingerprint") == FP_F7 for v in out):
+            mm = captured.get("mm") or []
+            terms = captured.get("terms") or []
+            out.append({"what": "no longer shown to hold: correspondence C10_Corr on %d case(s)" % nd,
+                        "replay": {"broken": ["correspondence C10_Corr on %d case(s)" % nd],
+                                   "disagreeing_coq_cases": [terms[j][:1500] for j in mm[:5] if j < len(terms)]},
+                        "fingerprint": None, "found_input": False})
         return orig(ctx_, pinfo, cov, out, *a, **kw)
 
     if ctx.tier != "quick":
@@ -463,11 +563,24 @@ def run(ctx):
         sub = [c for c in gen(random.Random(ctx.seed), "quick") if c["k"] in ("hs", "rawreq", "rawresp")][::3]
         ok, outs, _, log = common.run_go_cases(ctx, GO, sub, tag="race", race=True)
         ctx.say("race-detector run on %d handshake cases: %s" % (len(sub), "clean" if ok else "FAILED\n" + log[-2000:]))
+    # the composed theorems (C10_wire_*) mention float64 values: Print Assumptions lists Coq's primitive float/int
+    # operations under a header line "Axioms:" (see C11.py)
+    common.ALLOWED_AXIOMS.add("Axioms")
+    captured = {}
+    orig_eval = common.eval_cases
+
+    def eval_capture(ctx_, name, header, terms, *a, **kw):
+        r = orig_eval(ctx_, name, header, terms, *a, **kw)
+        captured["mm"], captured["terms"] = list(r[1]), terms
+        return r
+
     common.finish = finish_once
+    common.eval_cases = eval_capture
     try:
         return common.run_case_check(ctx, sys.modules[__name__])
     finally:
         common.finish = orig
+        common.eval_cases = orig_eval
 
 
 def replay(ctx, path):
@@ -490,7 +603,10 @@ LEVEL_TEXT = ("Machine-checked Coq theorems over a branch-by-branch Gallina mode
               "The model is tied to /repo on every run by ~200 real loopback QUIC handshakes and ~600 codec/config/sender cases "
               "evaluated against the model in the kernel (vm_compute).")
 LEVEL_NOTE = ("Trusted: Coq kernel + vm_compute; hand-written model (tie = sampled differential run + regenerated Params); python/Go glue; "
-              "reflection into quic-go to read the installed controller. No axioms. Not proved: wire-level pacing at the installed rate (C11); "
-              "HTTP/3 header transport.")
+              "reflection into quic-go to read the installed controller. Axioms: none for the negotiation theorems; the composed wire-level theorems "
+              "(C10_wire_rate_bound_*, C10_wire_never_stalled, C10_installed_sender_*, C10_handshake_wire, C10_wire_example) list Coq's primitive float/int "
+              "operations and, through C11_sender_bandwidth_bound, Coq.Floats.FloatAxioms and the real-number axioms pulled in by Flocq. "
+              "Composed with C11 (coq/proof/C10_Wire.v): the sender a decision Brutal r installs releases at most burst + reported/0.8 x interval "
+              "and is never stalled, under C11's remaining hypotheses (see assumptions). Not proved: HTTP/3 header transport; wall-clock behaviour of quic-go's send loop.")
 TECHNIQUE = "Coq proof (case analysis, induction on header strings) on a hand-written model + differential correspondence check in vm_compute"
 DESIGN_REF = "DESIGN.md section 4 C10"
